@@ -925,7 +925,9 @@ pub fn hostile_socket(ctx: &Ctx) -> Outcome {
         }
         if ok_connects < 3 || ok_accepts < 3 {
             // kind 3 may break the one connection it is aimed at - but only that one, and later service works
-            let tolerated = matches!(e, Ev::Stray { kind: 3 | 8 | 9, .. }) && ok_connects >= 2 && ok_accepts >= 2;
+            // (a replayed SYN of a live connection, kind 9, must not break anything: neither that connection
+            // nor the accept that happens to be waiting)
+            let tolerated = matches!(e, Ev::Stray { kind: 3 | 8, .. }) && ok_connects >= 2 && ok_accepts >= 2;
             if !tolerated {
                 let s = SockScript { cfgs: cfgs.clone(), events: base_events(Some((pos, e.clone()))), rng_seed: 1, latency_us: 10_000, plan: vec![] };
                 if !out.violations.iter().any(|v| v.signature == "contamination/hostile-datagram-breaks-other-connections") {
